@@ -7,7 +7,7 @@ package c41
 
 type gview struct {
 	admin   int
-	former  []int // former admins
+	former  []int         // former admins
 	holders map[int][]int // role -> ids named in accepted assignments
 	delegs  [][3]int      // accepted delegations (from, to, role)
 	funcs   map[int][]int // role -> function indices assigned
